@@ -883,7 +883,7 @@ fn assumptions(prop: &str) -> Vec<&'static str> {
     match prop {
         "C07" => v.push("the reference model is a fresh reader of the same build over a perfect disk: decides purity and agreement, not correctness of decoding"),
         "C08" => v.push("the default-option range of a fresh reader over a perfect disk is taken as the sheet's content"),
-        "C06" => v.push("scaling runs compare the CPU time of one amplified input at 1/4, 1/2 and 1/1 of its generated items (verdict: full size >= 100 ms and more than 9 x the quarter size, confirmed by two isolated replays); the CPU-time watchdog verdict is confirmed by two replays with a doubled budget; proportionality constants: heap <= 64 MiB + 512 x input, I/O events <= 64 x input + 1e5"),
+        "C06" => v.push("scaling runs compare the CPU time of one amplified input at 1/4, 1/2 and 1/1 of its generated items (verdict: full size >= 100 ms and more than 10 x the quarter size, confirmed by two isolated replays); the CPU-time watchdog verdict is confirmed by two replays with a doubled budget; proportionality constants: heap <= 64 MiB + 512 x input, I/O events <= 64 x input + 1e5"),
         _ => {}
     }
     v
